@@ -211,13 +211,25 @@ theorem parseStep_dt_ok (cu : Culture) (hcu : cu.monthHeadsEmpty = true) (l : Te
       have := hb.frame .era i (by decide) (by decide) (by decide) (by decide) (by decide) (by decide) (by decide)
         (by decide) (by decide)
       simpa [setsSlot] using this
+  | eraC cal =>
+    simp only [parseStep] at h
+    cases hp : firstMatchCI l (eraNamesOf cu (eraIdOfCal cal)) with
+    | none => rw [hp] at h; cases h
+    | some r' =>
+      rw [hp] at h; injection h with h; injection h with h; injection h with h _
+      rw [← h]
+      have := hb.frame .era (eraIdOfCal cal) (by decide) (by decide) (by decide) (by decide) (by decide) (by decide) (by decide)
+        (by decide) (by decide)
+      simpa [setsSlot] using this
   | calendar =>
     simp only [parseStep] at h
     split at h
     · cases h
-    · split at h
-      · injection h with h; injection h with h; injection h with h _; rw [← h]; simpa [setsSlot] using hb
-      · cases h
+    · rename_i i0 r0 _
+      injection h with h; injection h with h; injection h with h _; rw [← h]
+      have := hb.frame .calendar (ordOfId i0) (by decide) (by decide) (by decide) (by decide) (by decide) (by decide) (by decide)
+        (by decide) (by decide)
+      simpa [setsSlot] using this
   | num g st count maxCount minV maxV =>
     simp only [parseStep] at h
     cases hp : parseField count maxCount minV maxV l with
